@@ -269,6 +269,22 @@ def _run_pint(case, M):
   # built-in scales: the reference table must describe the object under test
   for d, v in ssi.items():
     M.small('scale_entry_vs_documented_constant', _rel(S[PINT_DIM[d]].to_base_units().magnitude, v), 1.0, 1e-14)
+  # offset target units: an absolute temperature re-dimensionalised in degC / degF (dimensionalize
+  # accepts any compatible unit; only the target side can be an offset unit)
+  u_ = scales.units
+  for k in range(6):
+    tk = rng.uniform(150.0, 350.0, () if k % 2 == 0 else (4,))
+    nd_t = S.nondimensionalize(tk * u_.degK)
+    for tgt, ref in ((u_.degC, tk - 273.15), (u_.degF, tk * 9.0 / 5.0 - 459.67)):
+      ok_, back = M.no_raise('dim_into_offset_unit_returns', lambda: S.dimensionalize(nd_t, tgt),
+                             info={'scale': sd['name'], 'target': str(tgt)})
+      if ok_:
+        M.small('dim_into_offset_unit_equals_to', np.abs(np.asarray(back.magnitude) - ref), 350.0, TOL,
+                info={'scale': sd['name'], 'target': str(tgt), 'kelvin': tk})
+        M.small('dim_into_offset_unit_equals_to',
+                np.abs(np.asarray(back.magnitude) - np.asarray((tk * u_.degK).to(tgt).magnitude)), 350.0, TOL,
+                info={'scale': sd['name'], 'target': str(tgt), 'kelvin': tk, 'oracle': 'pint .to()'})
+      M.cover('offset_target_units', str(tgt))
   worst = 0.0
   droppable = [d for d in sd['dims']]
   for k in range(case['n']):
@@ -440,6 +456,38 @@ def _run_timedelta(case, M):
       if b != v:
         bad.append((str(v), str(b)))
     M.check('timedelta_whole_seconds_scalar_exact', not bad, info={'scale': sd['name'], 'unit': unit, 'first': bad[:5]})
+  # model time as the float32 build carries it: nondimensional values cast to float32 (numpy scalar,
+  # numpy array, jax scalar).  float32 resolves whole seconds only up to ~1e5 s (8 ulp guard of the
+  # conversion reaches 0.1 s there), so this block stays below 1e5 s.
+  secs32 = np.unique(np.concatenate([np.arange(0, 3001), rng.integers(3001, 10 ** 5, 1500)]))
+  arr32 = secs32.astype('timedelta64[s]')
+  nd32 = np.asarray(specs.nondimensionalize_timedelta64(arr32)).astype(np.float32)
+  b32 = specs.dimensionalize_timedelta64(nd32)
+  bad = np.nonzero(np.asarray(b32) != arr32)[0]
+  M.check('timedelta_whole_seconds_float32_model_time_exact', bad.size == 0,
+          info={'scale': sd['name'], 'path': 'float32 array', 'n_bad': int(bad.size),
+                'first': [(str(arr32[i]), str(b32[i])) for i in bad[:5]]})
+  bad = []
+  for s_ in list(secs32[:400]) + list(secs32[-200:]):
+    v = np.float32(specs.nondimensionalize_timedelta64(np.timedelta64(int(s_), 's')))
+    got = specs.dimensionalize_timedelta64(v)
+    if got != np.timedelta64(int(s_), 's'):
+      bad.append((int(s_), str(got)))
+  M.check('timedelta_whole_seconds_float32_model_time_exact', not bad,
+          info={'scale': sd['name'], 'path': 'float32 scalar', 'n_bad': len(bad), 'first': bad[:5]})
+  try:
+    import jax.numpy as jnp  # pylint: disable=import-outside-toplevel
+    bad = []
+    for s_ in list(secs32[1:60]) + list(secs32[-60:]):
+      v = jnp.asarray(specs.nondimensionalize_timedelta64(np.timedelta64(int(s_), 's')), dtype=jnp.float32)
+      got = specs.dimensionalize_timedelta64(v)
+      if got != np.timedelta64(int(s_), 's'):
+        bad.append((int(s_), str(got)))
+    M.check('timedelta_whole_seconds_float32_model_time_exact', not bad,
+            info={'scale': sd['name'], 'path': 'jax float32 scalar', 'n_bad': len(bad), 'first': bad[:5]})
+  except ImportError:
+    M.unavailable('jax float32 model time')
+  M.cover('timedelta_float32_durations', sd['name'], int(secs32.size))
   # fractional durations: only "within one second" is demanded
   ms = rng.integers(0, 10 ** 8, 500)
   arr = ms.astype('timedelta64[ms]')
